@@ -565,7 +565,14 @@ func (r *Resolver) groupLookup(ctx context.Context, rs *resolveState, req *dns.M
 	if req.CheckingDisabled {
 		cd = '1'
 	}
-	key := strconv.FormatUint(cache.Key(q), 10) + "|" + servers.Zone +
+	//
+	// The question goes in spelled out, not as its 64-bit cache hash: a
+	// follower takes the leader's response as the answer to its own
+	// question (and it is cached as such), so two questions whose hashes
+	// collide must never share a flight. Only ASCII case is folded, as the
+	// hash did.
+	key := strings.ToLower(q.Name) + "|" + strconv.FormatUint(uint64(q.Qtype), 10) +
+		"|" + strconv.FormatUint(uint64(q.Qclass), 10) + "|" + servers.Zone +
 		"|" + string(cd) + "|" + strconv.FormatUint(servers.Fingerprint(), 10)
 
 	// The leader closure can outlive this caller: TimedDoChan returns on this
